@@ -38,6 +38,11 @@ func (node *Node) processUnconfirmedTx(ctx context.Context, tx handlers.TxData) 
 	//   for attempted double spends.
 	conflicts, trusted, added := node.memPool.AddTransaction(ctx, tx.Msg, tx.Trusted)
 	if !added {
+		if trusted {
+			// The trusted node has vouched for a tx that is already tracked. Record that with the
+			// tx so it survives a restart, the mempool doesn't.
+			node.txs.MarkTrusted(ctx, *hash)
+		}
 		return nil // Already saw this tx
 	}
 
